@@ -19,8 +19,9 @@ Outside the model (inputs): token cryptography (the OIDC verifier's verdict and 
 releases; the TokenReview answer of the API server), the third-party XFCC header grammar
 (`xfccparser.ParseXFCCHeader`: its parse result is an input), TLS chain verification.
 
-`fixed` selects the code before (`false`) / after (`true`) the `fix:` commit adding the bounds
-check on the fields of the OIDC `sub` claim.
+`fixed` selects the code before (`false`) / after (`true`) the two `fix:` commits on the OIDC `sub`
+claim: the bounds check on its fields (90fe2f5) and the rejection of an empty namespace / service
+account field (8474d0e).
 -/
 namespace IstioModel.C09
 
@@ -85,7 +86,8 @@ def oidcClaims (fixed : Bool) (td : String) (expected : List String) (sub : Stri
   else
     match (split ':' sub)[2]?, (split ':' sub)[3]? with
     | some ns, some sa =>
-      if !checkAudience aud expected then .err
+      if fixed ∧ (ns = "" ∨ sa = "") then .err
+      else if !checkAudience aud expected then .err
       else .ok { identities := [spiffeURI td ns sa] }
     | _, _ => .crash
 
@@ -360,5 +362,89 @@ def certAuthenticate (k : PeerKind) (chains : List (List CertSAN)) : AuthRes :=
       | _ => .err
     | _ => .err
   | _ => .err
+
+/-! ## Which client certificates are "validated": crypto/tls + `spiffe.PeerCertVerifier` (`pkg/spiffe/spiffe.go`)
+
+istiod's secure gRPC port (pilot/pkg/bootstrap initSecureDiscoveryService) uses
+`ClientAuth = VerifyClientCertIfGiven`, `ClientCAs = verifier.GetGeneralCertPool()` and
+`VerifyPeerCertificate = verifier.VerifyPeerCert`: the standard chain verification against ALL
+registered roots, then a second verification against the roots registered for the TRUST DOMAIN of the
+peer's URI SAN.  X.509 path building is modelled on names: a certificate names its issuer; signatures,
+and everything else crypto/x509 checks, are outside the model. -/
+
+inductive EKU
+  | both | client | server | none
+  deriving DecidableEq, Repr
+
+/-- an intermediate certificate the client presents -/
+structure CACert where
+  name   : String
+  issuer : String
+  isCA   : Bool := true
+  timeOk : Bool := true
+  deriving DecidableEq, Repr
+
+/-- the client's leaf certificate -/
+structure PLeaf where
+  issuer : String
+  sans   : List (String × String)   -- SAN entries in order: (kind "U" | "D" | "I", value)
+  timeOk : Bool := true
+  eku    : EKU := .both
+  deriving DecidableEq, Repr
+
+def PLeaf.uris (l : PLeaf) : List String := (l.sans.filter (fun e => e.1 = "U")).map (·.2)
+def PLeaf.values (l : PLeaf) : List String := l.sans.map (·.2)
+
+/-- an issuer name is a trusted root, or a presented, valid CA certificate that itself chains up -/
+def chainsTo (roots : List String) (ints : List CACert) : Nat → String → Bool
+  | 0, _ => false
+  | fuel + 1, iss =>
+    roots.contains iss ||
+      ints.any (fun i => i.name == iss && i.isCA && i.timeOk && chainsTo roots ints fuel i.issuer)
+
+/-- may a certificate with this extended key usage be used as a TLS client / server certificate? -/
+def EKU.allows (e : EKU) (server : Bool) : Bool :=
+  match e with
+  | .both => true
+  | .none => true
+  | .client => !server
+  | .server => server
+
+/-- `x509.Certificate.Verify` as modelled: validity period, key usage, a path to one of `roots` -/
+def x509Verify (server : Bool) (roots : List String) (leaf : PLeaf) (ints : List CACert) : Bool :=
+  leaf.timeOk && leaf.eku.allows server && chainsTo roots ints (ints.length + 1) leaf.issuer
+
+/-- `PeerCertVerifier.AddMapping`: pools merge per trust domain -/
+def poolOf (pools : List (String × List String)) (td : String) : Option (List String) :=
+  if pools.any (fun p => p.1 == td) then some ((pools.filter (fun p => p.1 == td)).flatMap (·.2)) else none
+
+def generalPool (pools : List (String × List String)) : List String := pools.flatMap (·.2)
+
+/-- `PeerCertVerifier.VerifyPeerCert` for a peer that presented a certificate: exactly one URI SAN,
+    it parses as a SPIFFE identity, its trust domain has a pool, the leaf verifies against THAT pool
+    (default key usage of `Verify`: server authentication). -/
+def verifyPeerCert (pools : List (String × List String)) (leaf : PLeaf) (ints : List CACert) : Bool :=
+  match leaf.uris with
+  | [u] =>
+    match parseIdentity u with
+    | none => false
+    | some (td, _, _) =>
+      match poolOf pools td with
+      | none => false
+      | some roots => x509Verify true roots leaf ints
+  | _ => false
+
+/-- does the TLS handshake accept the client? (no certificate: accepted, other authenticators may apply) -/
+def tlsAccepts (pools : List (String × List String)) : Option (PLeaf × List CACert) → Bool
+  | none => true
+  | some (leaf, ints) => x509Verify false (generalPool pools) leaf ints && verifyPeerCert pools leaf ints
+
+/-- handshake + `ClientCertAuthenticator`; `none` = handshake refused, there is no request -/
+def tlsCertAuthenticate (pools : List (String × List String)) (peer : Option (PLeaf × List CACert)) : Option AuthRes :=
+  if !tlsAccepts pools peer then none
+  else
+    match peer with
+    | none => some .err
+    | some (leaf, _) => some (certAuthenticate .tls [[.san leaf.values]])
 
 end IstioModel.C09
